@@ -1,12 +1,12 @@
 package main
 
 import (
-	"net"
 	"context"
 	"encoding/json"
 	"fmt"
 	"io"
 	"math/rand"
+	"net"
 	"sort"
 	"strings"
 	"sync"
@@ -536,6 +536,41 @@ func c14Free(ctx *Ctx, i int, rng *rand.Rand, limit, discard int) {
 	var wg sync.WaitGroup
 	expectHandled := int64(0)
 	cancelled := 0
+	// services may be registered on a server while it is handling requests (a pool registers its
+	// payment and status services after it starts listening): that must not hold up handlers,
+	// however deeply they call back
+	lateRegs := int64(0)
+	stopReg := make(chan struct{})
+	regDone := make(chan struct{})
+	if i%3 != 2 {
+		go func() {
+			defer close(regDone)
+			for n := 0; ; n++ {
+				select {
+				case <-stopReg:
+					return
+				case <-time.After(300 * time.Microsecond):
+				}
+				srv := sa
+				if n%2 == 1 {
+					srv = sb
+				}
+				done := make(chan struct{})
+				go func() {
+					srv.Register(fmt.Sprintf("late%d_", n), &BounceService{&ra, &handled, &wrong, &tokens})
+					close(done)
+				}()
+				select {
+				case <-done:
+					atomic.AddInt64(&lateRegs, 1)
+				case <-stopReg:
+					return
+				}
+			}
+		}()
+	} else {
+		close(regDone)
+	}
 	for k := 0; k < 2*K; k++ {
 		from := ra
 		if k%2 == 1 {
@@ -599,6 +634,8 @@ func c14Free(ctx *Ctx, i int, rng *rand.Rand, limit, discard int) {
 		}(from, token, depth, cancelIt)
 	}
 	wg.Wait()
+	close(stopReg)
+	<-regDone
 	time.Sleep(120 * time.Millisecond)
 	if w := atomic.LoadInt64(&wrong); w != 0 {
 		mon = append(mon, fmt.Sprintf("c14-wrong-context-service: %d handler invocations saw a context service other than the connection the request arrived on", w))
@@ -625,7 +662,7 @@ func c14Free(ctx *Ctx, i int, rng *rand.Rand, limit, discard int) {
 	if len(mon) > 4 {
 		mon = mon[:4]
 	}
-	ctx.Emit(Case{I: i, Kind: kind, Desc: map[string]interface{}{"callers_per_side": K, "limit": limit, "discard": discard, "handled": atomic.LoadInt64(&handled), "pending_left": pa + pb, "cancelled": cancelled}, Monitor: mon})
+	ctx.Emit(Case{I: i, Kind: kind, Desc: map[string]interface{}{"callers_per_side": K, "limit": limit, "discard": discard, "handled": atomic.LoadInt64(&handled), "pending_left": pa + pb, "cancelled": cancelled, "registrations_while_serving": atomic.LoadInt64(&lateRegs)}, Monitor: mon})
 }
 
 // c14FirstCalls: the first two calls on a Remote that was given no request-id source start at the
